@@ -81,3 +81,15 @@ Theorem C12_add_timer_keeps_registrations_well_formed : forall n now delta cb re
   NoOversleepTimers.timers_wf n -> NoOversleepTimers.timers_wf (add_timer n now delta cb ret).
 Proof. exact NoOversleepTimers.add_timer_wf. Qed.
 Print Assumptions C12_add_timer_keeps_registrations_well_formed.
+
+(* ... and the premise is an invariant: job iterations, add_timer and remove_timer keep the registrations well-formed, from a
+   node without timers onwards — T12.7 applies to every state these operations reach *)
+Theorem C12_registrations_stay_well_formed :
+  (forall maxp civ biv, NoOversleepTimers.timers_wf (init_node maxp civ biv)) /\
+  (forall n cb, NoOversleepTimers.timers_wf n -> NoOversleepTimers.timers_wf (remove_timer n cb)) /\
+  (forall n now, tnodup (n_rcv n) -> tnodup (n_snd n) -> NoOversleepTimers.timers_wf n ->
+     match flat (job_iter n now) with (n', _, RDone _) => NoOversleepTimers.timers_wf n' | (_, _, RRaise _) => True end).
+Proof.
+  split; [exact NoOversleepTimers.init_wf|split; [exact NoOversleepTimers.remove_timer_wf|exact NoOversleepTimers.job_iter_keeps_wf]].
+Qed.
+Print Assumptions C12_registrations_stay_well_formed.
